@@ -123,10 +123,10 @@ func lexExpr(src string) ([]ctok, error) {
 type Expr interface{ String() string }
 
 type (
-	EIdent  struct{ Name string }
-	EInt    struct{ V string }
-	EStr    struct{ V string }
-	EUnary  struct {
+	EIdent struct{ Name string }
+	EInt   struct{ V string }
+	EStr   struct{ V string }
+	EUnary struct {
 		Op string
 		X  Expr
 	}
